@@ -76,12 +76,31 @@ def check(chk, repo, tier):
     # ---- (2) byte<->text converters use the same constant, per character ----
     f_to = enc.function("vyxal_to_utf8")
     f_from = enc.function("utf8_to_vyxal")
-    for fn in (f_to, f_from):
-        h = _homomorphism(fn)
-        chk.ob("C20.codec-per-character", f"encoding.{fn.name}", h is not None,
-               "converter is no longer a per-character map "
-               "(acc = ''; for c in arg: acc += f(c); return acc)",
-               F, fn.lineno, sample="per-character homomorphism")
+    # both converters act character by character: conv(a + b) = conv(a) +
+    # conv(b), checked on every pair of control bytes / quote / backslash /
+    # boundary bytes (interpreting the current source)
+    p_to0 = penc.get("vyxal_to_utf8")
+    p_from0 = penc.get("utf8_to_vyxal")
+    reps = sorted(set(range(0, 33)) | {34, 39, 92, 96, 127, 128, 254, 255})
+    for label, conv, mk in (
+            ("vyxal_to_utf8", p_to0, lambda xs: list(xs)),
+            ("utf8_to_vyxal", p_from0,
+             lambda xs: "".join(codepage[x] for x in xs))):
+        bad = None
+        try:
+            single = {b: conv(mk([b])) for b in reps}
+            for a in reps:
+                for b2 in reps:
+                    if conv(mk([a, b2])) != single[a] + single[b2]:
+                        bad = bad or (a, b2)
+        except (PRaise, Exception) as exc:  # noqa: BLE001
+            bad = ("raised", repr(exc))
+        chk.ob("C20.codec-per-character", f"encoding.{label}", bad is None,
+               f"the converter does not act character by character: the pair "
+               f"{bad} is not converted to the concatenation of its parts "
+               "(so text -> bytes -> text is not the identity on strings)",
+               F, witness=repr(bad) if bad else None,
+               sample={"byte pairs": len(reps) ** 2})
     p_to = penc.get("vyxal_to_utf8")
     p_from = penc.get("utf8_to_vyxal")
     bad_rt = []
